@@ -671,7 +671,7 @@ func (w *World) lemmaBody(lem *Lemma, args []SVal) *Term {
 	for _, a := range args {
 		if s, ok := a.(SSlice); ok && s.Len != nil && s.Off != nil {
 			req = append(req, BVCmp("bvsle", BVInt(0, 64), s.Len), BVCmp("bvsle", BVInt(0, 64), s.Off),
-				BVCmp("bvsle", s.Len, BVInt(int64(1)<<48, 64)), BVCmp("bvsle", s.Off, BVInt(int64(1)<<48, 64)))
+				BVCmp("bvsle", s.Len, BVInt(int64(1)<<60, 64)), BVCmp("bvsle", s.Off, BVInt(int64(1)<<60, 64)))
 		}
 	}
 	for _, c := range lem.Clauses {
